@@ -21,7 +21,7 @@ from collections import Counter
 
 HERE = os.path.dirname(os.path.dirname(os.path.abspath(__file__)))
 
-from vf.core import Ctx, HarnessError, Sub, Violation, canon, jsonable, spec_hash  # noqa: E402
+from vf.core import Ctx, HarnessError, KnownSkip, Sub, Violation, canon, jsonable, spec_hash  # noqa: E402
 
 
 def load_known(prop):
@@ -95,6 +95,8 @@ def _run_case(sub, spec, ctx):
             fh.write(canon({"sub": sub.name, "spec": spec}))
     try:
         sub.check(spec, ctx)
+    except KnownSkip:
+        pass
     finally:
         _WD["t"] = None
 
@@ -237,6 +239,8 @@ def minimise(sub: Sub, preds, prop, failure, budget):
             ctx = Ctx(prop, sub.name, preds)
             try:
                 sub.check(copy.deepcopy(cand), ctx)
+            except KnownSkip:
+                continue
             except Violation as v:
                 if v.kind == kind:
                     best = cand
@@ -271,6 +275,8 @@ def run_replay_file(mod, path, preds):
     ctx = Ctx(mod.PROP, sub.name, preds)
     try:
         sub.check(rep["spec"], ctx)
+    except KnownSkip:
+        return None, ctx
     except Violation as v:
         if v.spec is None:
             v.spec = rep["spec"]
